@@ -226,6 +226,10 @@ def _alarm(signum, frame):
     raise Budget("wall-clock")
 
 
+def _cpu_alarm(signum, frame):
+    raise Budget("cpu-time")
+
+
 class CertImpl:
     def __init__(self):
         env.install()
@@ -257,9 +261,10 @@ class CertImpl:
         return os.path.join(self.dir, "%d-%s.json" % (os.getpid(), name))
 
     # ---- budgeted call ----------------------------------------------------------------
-    def budgeted(self, fn, max_lines=40000, wall_s=30):
-        """Run fn() counting executed lines of middleware frames.  -> ("ok", value) /
-        ("raise", exception) / ("budget", reason)"""
+    def budgeted(self, fn, max_lines=40000, wall_s=30, cpu_s=3.0):
+        """Run fn() counting executed lines of middleware frames, with a CPU-time alarm (loops inside
+        extension code, e.g. a backtracking regular expression, execute no Python line) and a
+        wall-clock alarm behind it.  -> ("ok", value) / ("raise", exception) / ("budget", reason)"""
         prefix = self.prefix
         count = [0]
 
@@ -276,7 +281,9 @@ class CertImpl:
             return None
 
         old_handler = signal.signal(signal.SIGALRM, _alarm)
+        old_vhandler = signal.signal(signal.SIGVTALRM, _cpu_alarm)
         signal.setitimer(signal.ITIMER_REAL, wall_s)
+        signal.setitimer(signal.ITIMER_VIRTUAL, cpu_s)
         old_trace = sys.gettrace()
         sys.settrace(tracer)
         try:
@@ -284,8 +291,10 @@ class CertImpl:
                 r = ("ok", fn())
             finally:
                 sys.settrace(old_trace)
+                signal.setitimer(signal.ITIMER_VIRTUAL, 0)
                 signal.setitimer(signal.ITIMER_REAL, 0)
                 signal.signal(signal.SIGALRM, old_handler)
+                signal.signal(signal.SIGVTALRM, old_vhandler)
         except Budget as b:
             return ("budget", str(b))
         except Exception as e:   # noqa
